@@ -628,13 +628,24 @@ def run(case: dict) -> Result:
             if obs2["status"] != "completed":
                 continue
             base2 = base if keep else None
-            ids2 = {v.ident for v in evaluate(case, keep, obs2, base2, {})}
+            ids2 = {(v.ident, v.oracle, v.shape) for v in evaluate(case, keep, obs2, base2, {})}
             for v in remaining:
-                if v.ident not in ids2 and v.oracle != "cancelled-fault-acted":
+                if (v.ident, v.oracle, v.shape) not in ids2 and v.oracle != "cancelled-fault-acted":
                     types = sorted({x["type"] for x in wins if x["cancelled"] == mode})
                     v.detail = f"[caused by a cancelled fault ({mode}; cancelled types {types}); original {v.component}|{v.oracle}|{v.shape}] " + v.detail
                     v.oracle, v.component, v.shape = "cancelled-fault-acted", "FaultHandle", CANCEL_NAMES[mode]
-            faults_now = keep  # noqa: F841  (each mode is tested against the full original schedule on purpose)
+        left = [v for v in remaining if v.oracle != "cancelled-fault-acted"]
+        if left and len(cancelled_modes) > 1:
+            # several cancelled faults of different kinds may cover one instant: remove them all
+            keep = [f for f, x in zip(faults, wins) if not x["cancelled"]]
+            obs2 = w.execute(case, faults=keep)
+            if obs2["status"] == "completed":
+                ids2 = {(v.ident, v.oracle, v.shape) for v in evaluate(case, keep, obs2, base if keep else None, {})}
+                for v in left:
+                    if (v.ident, v.oracle, v.shape) not in ids2:
+                        v.detail = f"[caused by cancelled faults ({cancelled_modes}); original {v.component}|{v.oracle}|{v.shape}] " + v.detail
+                        v.oracle, v.component = "cancelled-fault-acted", "FaultHandle"
+                        v.shape = "+".join(CANCEL_NAMES[m] for m in cancelled_modes)
 
     for k, n in stats.items():
         if k.endswith("_seen"):
@@ -815,8 +826,6 @@ def _horizon(case, T_ms):
         d = sum(st[0] for st in wk.get("steps", [])) + svc.get(wk["to"], 0)
         per[wk["to"]] = per.get(wk["to"], 0) + d
     tail = max(per.values(), default=0)
-    for j in case.get("jobs", []):
-        tail = max(tail, 0)
     hold = sum(j["hold_ns"] for j in case.get("jobs", []))
     last = max([w["t"] for w in case.get("work", [])] + [j["t"] for j in case.get("jobs", [])] + [T_ms * MS])
     ends = [f["end_ms"] * MS for f in case.get("faults", []) if f.get("end_ms") is not None]
